@@ -174,7 +174,7 @@ def judge(ctx: Ctx, hist: list, obs: list) -> None:
         ctx.nontrivial.add(json.dumps(c, sort_keys=True) + "|" + json.dumps(step["reg"]))
 
 
-def trace_api(ctx: Ctx) -> None:
+def trace_api(ctx: Ctx, prop: str = "C05") -> None:
     """B2: the repository's own test-suite, run under the API tracer, must be a behaviour of the gate (TraceApi.tla)."""
     import os, subprocess, copy
     from .common import REPO, VERIF
@@ -199,6 +199,10 @@ def trace_api(ctx: Ctx) -> None:
         return r.cases[-1]
     rep = validate(events, "api_trace")
     for rj in rep["rejected"]:
+        owner = "C15" if rj["clause"].startswith("operation succeeded although") else \
+            ("C06" if rj["clause"].startswith(("operation succeeded with a key", "operation succeeded with a public key")) else "C05")
+        if owner != prop:
+            continue                      # header-rule clauses belong to C15, key-suitability clauses to C06, algorithm clauses to C05
         ctx.violation(f"traceapi:{rj['api']} {rj['clause']}", {"event_seq": rj["seq"], "names": rj["names"], "source": "repository test-suite under the API tracer"})
     # binding demonstration: corrupt one recorded field -> the trace must be rejected at that event
     ok_ev = next(i for i, e in enumerate(events) if e["judged"] and e["outcome"] == "ok" and e["side"] == "jws" and e["entries"] and e["entries"][0]["alg"] == "HS256")
@@ -207,9 +211,19 @@ def trace_api(ctx: Ctx) -> None:
     rep2 = validate(bad, "api_trace_corrupted")
     if not any(r["seq"] == bad[ok_ev]["seq"] for r in rep2["rejected"]):
         raise MachineryError("binding demonstration failed: a corrupted API event was accepted by TraceApi")
+    # ... and one header member of a wrong JSON type in a successful call (the C15 rule evaluated on recorded calls)
+    hi = next(i for i, e in enumerate(events) if e["headers_judged"] and e["outcome"] == "ok" and "alg" in e["headers"][0]["names"])
+    bad2 = copy.deepcopy(events[:hi + 1]); h0 = bad2[hi]["headers"][0]; h0["classes"][h0["names"].index("alg")] = "int"
+    rep3 = validate(bad2, "api_trace_corrupted_header")
+    if not any(r["seq"] == bad2[hi]["seq"] and "wrong JSON type" in r["clause"] for r in rep3["rejected"]):
+        raise MachineryError("binding demonstration failed: a successful call with an ill-typed header member was accepted by TraceApi")
+    if rep["keys_judged_ok"] < 200:
+        raise MachineryError(f"only {rep['keys_judged_ok']} successful calls had their key judged")
+    if rep["headers_judged_ok"] < 200:
+        raise MachineryError(f"only {rep['headers_judged_ok']} successful calls had their header judged")
     ctx.traces += 1
     ctx.evaluations += len(events)
-    ctx.notes["api_trace"] = {"events": len(events), "judged_ok": rep["judged_ok"], "rejected": len(rep["rejected"]),
+    ctx.notes["api_trace"] = {"events": len(events), "judged_ok": rep["judged_ok"], "headers_judged_ok": rep["headers_judged_ok"], "keys_judged_ok": rep["keys_judged_ok"], "rejected": len(rep["rejected"]),
                               "source": "repository test-suite (pytest -p harness.verif_pytest_plugin)", "binding_demo": "corrupted event rejected"}
 
 
